@@ -94,6 +94,13 @@ def rules_for_body(v, bs, sk_named):
                 continue
             out.append(finding("C15.ITER", v, "the number of members influences more than a capacity hint", bb))
             continue
+        if nm in ("std::iter::Iterator::try_fold", "std::iter::Iterator::try_for_each", "std::iter::Iterator::for_each", "std::iter::Iterator::fold"):
+            # visits every member in turn (stopping early only when the closure says so), like the loop it replaces: nothing is
+            # selected by position; what the closure carries from one member to the next is not read here
+            f_ = finding("C15.ITER", v, "the members of an object are visited through %s: the state its closure carries between members was not read: not recognised (undecided)" % nm, bb)
+            f_.undecided = True
+            out.append(f_)
+            continue
         out.append(finding("C15.ITER", v, "the members of an object are accessed through %s (only stepping through all of them is order-independent)" % nm, bb))
     if not map_nexts:
         return out, ob
